@@ -1452,7 +1452,15 @@ impl St {
         let n = spec.n;
         let reply;
         match guarded_build(&spec) {
-            Guarded::Timeout => reply = "timeout".to_string(),
+            Guarded::Timeout => {
+                // the build did not return within the (generous) wall-clock guard: "the call always
+                // terminates" is violated.  Its thread cannot be cancelled and further hanging
+                // builds would cost the guard each, so the run stops here: the check reports the
+                // process exit with this op, the last one written, as the failing input
+                ctx.reply("timeout");
+                eprintln!("build did not return within the wall-clock guard: {}", spec.line());
+                std::process::exit(3);
+            }
             Guarded::Panic => reply = "panic".to_string(),
             Guarded::Done(out) => {
                 self.last_passes = out.passes;
